@@ -170,8 +170,8 @@ func (m *Monitors) restoringLeader(data string) int {
 // restoreEnd: final-state checks once the cluster converged.
 func (m *Monitors) restoreEnd() {
 	w := m.w
-	if len(m.restores) == 0 || w.endWhy != "goal" {
-		return
+	if len(m.restores) == 0 || w.endWhy != "goal" || !w.converged() {
+		return // (the goal of some scenarios is the end of their calls, not convergence)
 	}
 	last := m.restores[len(m.restores)-1]
 	aborted := map[string]bool{}
